@@ -122,6 +122,17 @@ def alg_valid(a, bd):
     return a['lo'] <= bd <= a['hi']
 
 
+def pl_points_value(pts, x):
+    """the piecewise-linear function through pts (x increasing), first/last segment extended; python side"""
+    if len(pts) < 2:
+        return pts[0][1]
+    k = 0
+    while k + 2 < len(pts) and x > pts[k + 1][0]:
+        k += 1
+    (xa, ya), (xb, yb) = pts[k], pts[k + 1]
+    return ya + (yb - ya) / (xb - xa) * (x - xa)
+
+
 class Flat:
     """the flat model as dumped by harness/c07 at the time of the solution check"""
 
@@ -176,6 +187,10 @@ class Flat:
             if k == 'nofv':
                 return ('func', d['res'], d['ctx'], (k, args[0], args[1:]))
             return ('func', d['res'], d['ctx'], (k, args))
+        if tn == 'PLConstraint':
+            pr = d['params']
+            pts = [(fin(fr(a)), fin(fr(b))) for a, b in zip(pr['x'], pr['y'])]
+            return ('func', d['res'], d['ctx'], ('pl', d['args'], pts))
         if tn.startswith('Cond'):
             return ('cond', d['res'], d['ctx'], alg_from(tn[4:], d['con']))
         if tn.startswith('Indicator'):
@@ -221,6 +236,8 @@ class Flat:
                 fs = 'div %d %d' % (f[1][0], f[1][1])
             elif fk in ('ifthen', 'impl'):
                 fs = '%s %d %d %d' % (fk, f[1][0], f[1][1], f[1][2])
+            elif fk == 'pl':
+                fs = 'pl %d %s %d' % (len(f[2]), ' '.join('%s %s' % (rstr(a), rstr(b)) for a, b in f[2]), f[1][0])
             elif fk == 'nofc':
                 fs = 'nofc %s %d %s' % (rstr(f[1]), len(f[2]), ' '.join(map(str, f[2])))
             elif fk == 'nofv':
@@ -289,6 +306,8 @@ class Flat:
             return F(sum(1 for i in f[2] if x[i] == x[f[1]]))
         if k == 'count':
             return F(sum(1 for i in f[1] if x[i] >= F(1, 2)))
+        if k == 'pl':
+            return pl_points_value(f[2], x[f[1][0]])
         raise Unsupported(k)
 
     def con_vars(self, c):
@@ -312,18 +331,41 @@ class Flat:
             return None
         return it['con']
 
+    def best_def(self, i):
+        """the expression that gives variable i its mathematical value: among the not-unused functional constraints
+        with result i the one closest to the NL model (smallest depth); a variable redefined during conversion (e.g.
+        a PL term rewritten over lambda variables) keeps its original depth-0 expression"""
+        if not hasattr(self, '_by_res'):
+            self._by_res = {}
+            for it in self.items:
+                if not it['unused'] and it['con'][0] in ('func', 'cond', 'adef'):
+                    self._by_res.setdefault(it['con'][1], []).append(it)
+        cands = self._by_res.get(i)
+        if not cands:
+            return self.def_of(i)
+        init = self.def_of(i)
+        best = min(cands, key=lambda it: (it['depth'], 0 if it['con'] is init else 1))
+        return best['con']
+
     def consistent(self, xorig, rng=None):
-        """extend values of the original variables by the exact values of all defining expressions; variables
-        without a definition get their lower bound (or a random bound).  None if not computable in index order."""
+        """extend values of the original variables by the exact values of all defining expressions (evaluated in
+        dependency order); variables without a definition get their lower bound (or a random bound).
+        None if the definitions are cyclic or not computable."""
         n = len(self.vars)
         x = [None] * n
-        for i in range(n):
+        state = [0] * n           # 0 new, 1 in progress, 2 done
+
+        def val(i):
+            if state[i] == 2:
+                return True
+            if state[i] == 1:
+                return False
+            state[i] = 1
             v = self.vars[i]
+            d = None if v['orig'] else self.best_def(i)
             if v['orig']:
                 x[i] = F(xorig[i])
-                continue
-            d = self.def_of(i)
-            if d is None:
+            elif d is None:
                 lb, ub = v['lb'], v['ub']
                 if lb == -INF and ub == INF:
                     x[i] = F(0)
@@ -333,12 +375,18 @@ class Flat:
                     x[i] = F(lb)
                 else:
                     x[i] = F(ub)
-                continue
-            if any(j >= i for j in self.con_vars(d)):
-                return None
-            try:
-                x[i] = self.math_value(d, x)
-            except Unsupported:
+            else:
+                for j in self.con_vars(d):
+                    if not val(j):
+                        return False
+                try:
+                    x[i] = self.math_value(d, x)
+                except Unsupported:
+                    return False
+            state[i] = 2
+            return True
+        for i in range(n):
+            if not val(i):
                 return None
         return x
 
@@ -373,6 +421,50 @@ def render(lines, star):
             row = '*' + row[1:]
         t += row + '\n'
     return t
+
+
+def g1_alts(fmax, val, name):
+    """renderings of one 'max violation' field allowing for a last-ulp difference between the exact value and the
+    double the C++ formatted (only matters when the value sits on a rounding boundary of the 1-digit format, which
+    happens with non-dyadic constants introduced by the conversion, e.g. strict-inequality epsilons)"""
+    out = {g1(fmax, val, name)}
+    if val not in ('inf', '-inf') and F(val) > 0 and fmax:
+        for k in (F(1) - F(1, 10 ** 9), F(1) + F(1, 10 ** 9)):
+            out.add(g1(fmax, rstr(F(val) * k), name))
+    return out
+
+
+def text_matches(obs_text, ideal, real):
+    """observed report text vs model lines, numbers compared up to the rounding-boundary allowance of g1_alts"""
+    exp = expected_text(ideal, real)
+    if obs_text is None or exp is None:
+        return obs_text is None and exp is None
+    ol = obs_text.split('\n')
+    el = norm_text(exp).split('\n')
+    if len(ol) != len(el):
+        return False
+    lines = [(l, False) for l in ideal] + [(l, True) for l in real]
+    k = 0
+    for o, e in zip(ol, el):
+        if o == e:
+            if e.startswith('  ') or (e.startswith('* ') and not e.startswith('*:')):
+                k += 1
+            continue
+        if not (e.startswith('  ') or e.startswith('* ')) or k >= len(lines):
+            return False
+        l, star = lines[k]
+        k += 1
+        ok = False
+        for a in g1_alts(l['fmax'], l['maxabs'], l['nameabs']):
+            for b in g1_alts(l['fmax'], l['maxrel'], l['namerel']):
+                row = '  %-27s' % l['label'] + '  %-14s' % a + '  %-14s' % b
+                if star:
+                    row = '*' + row[1:]
+                if row.rstrip() == o:
+                    ok = True
+        if not ok:
+            return False
+    return True
 
 
 def expected_text(ideal, real):
@@ -482,6 +574,35 @@ class Gen:
             return ('/', self.num_leaf(m, xs), ('v', r.choice(cand)))
         if k == 'sum':
             return ('+', self.num(m, xs, depth - 1), self.num(m, xs, depth - 1))
+        if k == 'pl':
+            # AMPL <<breakpoints; slopes>> x_j; breakpoints placed relative to the planted value so that the argument is
+            # left of the first breakpoint by more than 1, between breakpoints, or right of the last one
+            cont = [j for j, v in enumerate(m.vars) if not v['int']]
+            if not cont:
+                return self.lin(m, xs)
+            j = r.choice(cont)
+            nb = r.rint(1, 3)
+            gaps = [F(r.rint(2, 12), GRID) for _ in range(nb - 1)]
+            where = r.below(4)
+            if where == 0:
+                first = xs[j] + r.choice([F(5, 4), F(2), F(3), F(9, 2)])
+                self.hit('pl:left>1')
+            elif where == 1:
+                first = xs[j] + r.choice([F(1, 4), F(1, 2), F(1)])
+                self.hit('pl:left<=1')
+            elif where == 2:
+                first = xs[j] - sum(gaps, F(0)) - r.choice([F(1, 4), F(1), F(5, 2)])
+                self.hit('pl:right')
+            else:
+                first = xs[j] - (sum(gaps[:r.rint(0, len(gaps))], F(0)) if gaps else F(0)) - r.choice([F(0), F(1, 4), F(1, 2)])
+                self.hit('pl:between')
+            bps = [first]
+            for g in gaps:
+                bps.append(bps[-1] + g)
+            slopes = [r.choice([F(-2), F(-1), F(-1, 2), F(1, 2), F(1), F(2), F(3), F(0)]) for _ in range(nb + 1)]
+            if slopes[0] == 0 and r.chance(3, 4):
+                slopes[0] = F(-1)
+            return ('pl', slopes, bps, j)
         return self.lin(m, xs)
 
     def log(self, m, xs, depth):
@@ -616,7 +737,9 @@ PROFILES = {
               'ncons': (0, 2), 'nlcons': (1, 3), 'depth': 2},
     'expr': {'num': ['abs', 'min', 'max', 'if', 'sum', 'count'], 'rel': ['le', 'ge', 'eq', 'lt'], 'log': ['or', 'and', 'not'],
              'ncons': (1, 3), 'nlcons': (0, 1), 'depth': 2, 'p_nl': (3, 4)},
-    'mixed': {'num': ['abs', 'min', 'max', 'if', 'count', 'numberof', 'mul', 'div', 'sum'],
+    'pl': {'num': ['pl', 'pl', 'pl', 'abs', 'sum'], 'rel': ['le', 'ge', 'eq'], 'log': ['or', 'and'],
+           'ncons': (1, 3), 'nlcons': (0, 1), 'depth': 2, 'p_nl': (1, 1)},
+    'mixed': {'num': ['abs', 'min', 'max', 'if', 'count', 'numberof', 'mul', 'div', 'sum', 'pl'],
               'rel': ['le', 'ge', 'lt', 'gt', 'eq', 'ne'],
               'log': ['or', 'and', 'not', 'implies', 'iff', 'forall', 'exists', 'alldiff', 'atleast', 'atmost', 'exactly'],
               'ncons': (0, 3), 'nlcons': (0, 2), 'depth': 2, 'p_nl': (2, 3), 'sos': True},
@@ -625,7 +748,7 @@ PROFILES = {
 ACCEPT_SETS = [
     None,                                                  # default: the four linear types
     'ALL',
-    'LinConRange,LinConLE,LinConEQ,LinConGE,QuadConRange,QuadConLE,QuadConEQ,QuadConGE',
+    'LinConRange,LinConLE,LinConEQ,LinConGE,QuadConRange,QuadConLE,QuadConEQ,QuadConGE,PLConstraint',
     'LinConRange,LinConLE,LinConEQ,LinConGE,IndicatorLinConLE,IndicatorLinConEQ,IndicatorLinConGE,SOS1Constraint,SOS2Constraint',
     'LinConRange,LinConLE,LinConEQ,LinConGE,AbsConstraint,MaxConstraint,MinConstraint,AndConstraint,OrConstraint,NotConstraint',
     'LinConRange,LinConLE,LinConEQ,LinConGE,QuadConRange,QuadConLE,QuadConEQ,QuadConGE,IndicatorLinConLE,IndicatorLinConEQ,IndicatorLinConGE,'
@@ -1191,7 +1314,7 @@ def proof_stage(ck):
     return ok, failing
 
 
-EXPECT_THEOREMS = 26
+EXPECT_THEOREMS = 31
 
 
 def run(ck):
@@ -1213,7 +1336,7 @@ def run(ck):
     corr_bad, oracle_bad = [], []
     distinct = set()
     cid = 0
-    profiles = ['linear', 'linear', 'logic', 'expr', 'mixed', 'mixed']
+    profiles = ['linear', 'linear', 'logic', 'expr', 'mixed', 'pl', 'mixed', 'pl']
     mi = 0
     corpus_cases = load_corpus(R)
     batches = []
@@ -1350,6 +1473,17 @@ def load_corpus(R):
     for xv in (F(7), F(3), F(5), F(19, 4)):
         for mode in (96, 3, 99, 515, 1023 - 12 - 384):
             case('corp_cond', m3, 'logic', [xv, F(1)], {'mode': mode, 'feastolrel': F(0)}, 'corpus-cond-ideal')
+    # 4. piecewise-linear term: <<0,2; -1,1,3>> x + y = 7 (left of the first stored point / between / right)
+    m4 = nlgen.Model()
+    x = m4.var(-10, 10, False, 'x'); y = m4.var(-100, 100, False, 'y')
+    m4.con(7, 7, {y: 1}, ('pl', [F(-1), F(1), F(3)], [F(0), F(2)], x))
+    m4.obj('min', {y: 1})
+    for xv in (F(-5), F(-3, 2), F(-1, 2), F(1), F(5), F(-9)):
+        fy = F(7) - nlgen.ev_pl([F(-1), F(1), F(3)], [F(0), F(2)], xv)
+        for acc in (None, 'LinConRange,LinConLE,LinConEQ,LinConGE,PLConstraint'):
+            for mode in (515, 1023 - 12 - 384, 3, 96):
+                case('corp_pl' + ('a' if acc else 'd'), m4, 'pl', [xv, fy], {'mode': mode, 'feastolrel': F(0), 'fail': mode == 515}, 'corpus-pl', accept=acc)
+        case('corp_pld', m4, 'pl', [xv, fy + 3], {'mode': 515, 'feastolrel': F(0)}, 'corpus-pl')
     return cases
 
 
@@ -1399,7 +1533,11 @@ def evaluate(ck, c, stats, hist, corr_bad, oracle_bad, distinct):
         stats['skipped_seen'] += 1
     distinct.add(hashlib.sha1((c['run_stub'] + repr(obs['text']) + obs['ret']).encode()).hexdigest()[:12] if obs['text'] else 'clean:' + str(f.chk['mode']) + c['family'] + c['profile'])
     if obs != pre:
-        corr_bad.append((c, 'differs', {'observed': obs, 'predicted': pre}))
+        if not (pre is not None and obs['ret'] == pre['ret'] and obs['code'] == pre['code']
+                and text_matches(obs['text'], md['ideal'], md['real'])):
+            corr_bad.append((c, 'differs', {'observed': obs, 'predicted': pre}))
+        else:
+            stats['format_boundary'] = stats.get('format_boundary', 0) + 1
     orc = oracle(c)
     if orc is not None:
         stats['oracle_applied'] += 1
